@@ -11,3 +11,8 @@ if [ ! -x driver ] || [ model.ml -nt driver ] || [ /verif/ocaml/driver.ml -nt dr
   ocamlfind ocamlopt -O2 -w -a model.mli model.ml driver.ml -o driver 2>&1 | grep -v "^$" || true
   [ -x driver ]
 fi
+if [ ! -x e2_driver ] || [ model.ml -nt e2_driver ] || [ /verif/ocaml/e2_driver.ml -nt e2_driver ]; then
+  cp /verif/ocaml/e2_driver.ml .
+  ocamlfind ocamlopt -O2 -w -a model.mli model.ml e2_driver.ml -o e2_driver 2>&1 | grep -v "^$" || true
+  [ -x e2_driver ]
+fi
